@@ -1,7 +1,10 @@
-(* C05: property theorems (statements proved so far; see bin/propcfg/C05.py for the status). *)
+(* C05: core / dead features.  Property theorems only (proofs: Proofs/C05Proof.v, Proofs/CountsA.v);
+   see bin/propcfg/C05.py for the status. *)
 From Coq Require Import List ZArith Bool Permutation.
-From DD Require Import Model.Circuit Model.Query Proofs.Semantics Proofs.CountsA Proofs.QueryDefs.
+From DD Require Import Model.Circuit Model.Query Proofs.Semantics Proofs.CountsA Proofs.QueryDefs
+  Proofs.C05Proof.
 Import ListNotations.
+Open Scope Z_scope.
 
 (* The specification-level count with the complementary leaves zeroed is the number of models
    that contain all assumed literals (every WF circuit, every in-range assumption list,
@@ -10,3 +13,169 @@ Theorem C05_countsA_is_MCA : forall C n A,
   WF C n -> in_range n A -> nth (root C) (countsA A C) 0 = MCA C n A.
 Proof. exact countsA_MCA. Qed.
 Print Assumptions C05_countsA_is_MCA.
+
+(* ---------- (A) the cached core (calculate_core, returned for empty assumptions) ---------- *)
+
+(* Soundness: every literal the syntactic core reports is in every model.  Needs neither
+   no_dead nor reachability nor unique leaves (proved from WF alone: C05_core_sound_WF). *)
+Theorem C05_core_sound : forall C n l,
+  WFQ C n -> In l (calculate_core C n) -> forall m, In m (Models C n) -> In l m.
+Proof. exact core_sound. Qed.
+Print Assumptions C05_core_sound.
+
+Theorem C05_core_sound_WF : forall C n l,
+  WF C n -> In l (calculate_core C n) -> forall m, In m (Models C n) -> In l m.
+Proof. exact core_sound_WF. Qed.
+Print Assumptions C05_core_sound_WF.
+
+(* Completeness: uses WF + all_reachable + no_dead (no_dead also gives a model, so the
+   right-hand side is not vacuous). *)
+Theorem C05_core_complete : forall C n l,
+  WF C n -> all_reachable C = true -> no_dead C = true ->
+  (forall m, In m (Models C n) -> In l m) -> In l (calculate_core C n).
+Proof. exact core_complete_WF. Qed.
+Print Assumptions C05_core_complete.
+
+(* Exactness when no node is dead. *)
+Theorem C05_core_syntactic : forall C n l,
+  WFQ C n -> no_dead C = true ->
+  (In l (calculate_core C n) <-> (forall m, In m (Models C n) -> In l m)).
+Proof. exact core_syntactic. Qed.
+Print Assumptions C05_core_syntactic.
+
+(* ... which is what core_dead_with_assumptions answers for the empty assumption list. *)
+Theorem C05_core_dead_nil_correct : forall C n s l,
+  WFQ C n -> no_dead C = true ->
+  (In l (snd (core_dead_with_assumptions (build C n) [] s)) <->
+   (forall m, In m (Models C n) -> In l m)).
+Proof. exact core_dead_nil_correct. Qed.
+Print Assumptions C05_core_dead_nil_correct.
+
+(* ---------- (B) without no_dead the syntactic core is incomplete (finding K7) ---------- *)
+Theorem C05_core_refuted_without_no_dead :
+  exists C n l, WFQ C n /\ (forall m, In m (Models C n) -> In l m) /\ ~ In l (calculate_core C n).
+Proof. exact core_refuted_without_no_dead. Qed.
+Print Assumptions C05_core_refuted_without_no_dead.
+
+(* ---------- (D) per-candidate criteria at truth-table level (no hypothesis needed) ---------- *)
+Theorem C05_candidate_criterion : forall C n A x,
+  MCA C n (A ++ [x]) = MCA C n A <-> (forall m, In m (ModelsA C n A) -> In x m).
+Proof. exact candidate_criterion. Qed.
+Print Assumptions C05_candidate_criterion.
+
+Theorem C05_candidate_dead_criterion : forall C n A v,
+  1 <= v <= Z.of_nat n ->
+  (MCA C n (A ++ [v]) = 0 <-> (forall m, In m (ModelsA C n A) -> In (- v) m)).
+Proof. exact candidate_dead_criterion. Qed.
+Print Assumptions C05_candidate_dead_criterion.
+
+Theorem C05_MCA_split : forall C n A v,
+  1 <= v <= Z.of_nat n -> MCA C n (A ++ [v]) + MCA C n (A ++ [- v]) = MCA C n A.
+Proof. exact MCA_split. Qed.
+Print Assumptions C05_MCA_split.
+
+(* ModelsA = the models that contain every assumed literal *)
+Theorem C05_ModelsA_In : forall C n A m,
+  In m (ModelsA C n A) <-> In m (Models C n) /\ (forall a, In a A -> In a m).
+Proof. exact ModelsA_In. Qed.
+Print Assumptions C05_ModelsA_In.
+
+(* ---------- (C) the with-assumptions loop over the specified count ---------- *)
+
+(* The loop of core_dead_with_assumptions with the truth-table count MCA in place of
+   execute_query reports, in order 1..n, i when every model containing A contains i and -i when
+   every model containing A contains -i (both when there is no such model). *)
+Theorem C05_core_dead_spec_correct : forall C n A,
+  WF C n -> in_range n A -> A <> [] ->
+  core_dead_spec (MCA C n) n A =
+  flat_map (fun i => (if fixedb C n A i then [i] else []) ++
+                     (if fixedb C n A (- i) then [- i] else []))
+           (zseq 1 n).
+Proof. exact core_dead_spec_correct. Qed.
+Print Assumptions C05_core_dead_spec_correct.
+
+(* the hypotheses are not needed at this level *)
+Theorem C05_core_dead_spec_correct_gen : forall C n A,
+  core_dead_spec (MCA C n) n A = core_dead_sem C n A.
+Proof. exact core_dead_spec_correct_gen. Qed.
+Print Assumptions C05_core_dead_spec_correct_gen.
+
+Theorem C05_fixedb_spec : forall C n A l,
+  fixedb C n A l = true <-> (forall m, In m (ModelsA C n A) -> In l m).
+Proof. exact fixedb_spec. Qed.
+Print Assumptions C05_fixedb_spec.
+
+Theorem C05_core_dead_spec_In : forall C n A l,
+  In l (core_dead_spec (MCA C n) n A) <->
+  1 <= Z.abs l <= Z.of_nat n /\ (forall m, In m (ModelsA C n A) -> In l m).
+Proof. exact core_dead_spec_In. Qed.
+Print Assumptions C05_core_dead_spec_In.
+
+Theorem C05_core_dead_spec_unsat : forall C n A,
+  MCA C n A = 0 -> core_dead_spec (MCA C n) n A = flat_map (fun i => [i; - i]) (zseq 1 n).
+Proof. exact core_dead_spec_unsat. Qed.
+Print Assumptions C05_core_dead_spec_unsat.
+
+(* Glue to the algorithm: IF execute_query computes MCA and preserves the Clean invariant
+   (explicit hypothesis; the statement of the separately developed execute_query_correct), THEN
+   core_dead_with_assumptions returns the spec loop, hence exactly the fixed literals. *)
+Theorem C05_core_dead_glue : forall C n,
+  (forall A s, in_range n A -> Clean C s ->
+     exists s', execute_query (build C n) A s = (s', MCA C n A) /\ Clean C s') ->
+  forall A s, A <> [] -> in_range n A -> Clean C s ->
+  exists s', core_dead_with_assumptions (build C n) A s = (s', core_dead_spec (MCA C n) n A)
+             /\ Clean C s'.
+Proof. exact core_dead_glue. Qed.
+Print Assumptions C05_core_dead_glue.
+
+Theorem C05_core_dead_with_assumptions_correct : forall C n,
+  (forall A s, in_range n A -> Clean C s ->
+     exists s', execute_query (build C n) A s = (s', MCA C n A) /\ Clean C s') ->
+  forall A s, A <> [] -> in_range n A -> Clean C s ->
+  exists s', core_dead_with_assumptions (build C n) A s = (s', core_dead_sem C n A)
+             /\ Clean C s'.
+Proof. exact core_dead_with_assumptions_correct. Qed.
+Print Assumptions C05_core_dead_with_assumptions_correct.
+
+(* ---------- non-vacuity ---------- *)
+
+(* x1 & (x2 <-> x3): WFQ, no dead node, two models; core = [1] syntactically and semantically *)
+Definition ex_c05 : circuit :=
+  [Lit 1; Lit 2; Lit (-2); Lit 3; Lit (-3); And [1;3]%nat; And [2;4]%nat; Or [5;6]%nat;
+   And [0;7]%nat].
+
+Example ex_c05_hyps : WFQ ex_c05 3 /\ no_dead ex_c05 = true /\
+  Models ex_c05 3 = [[1; 2; 3]; [1; -2; -3]] /\ calculate_core ex_c05 3 = [1].
+Proof. split; [apply check_wf_WFQ; vm_compute; reflexivity|]. vm_compute. repeat split. Qed.
+
+(* the hypotheses of the with-assumptions theorems: in-range non-empty A, a Clean state; the
+   algorithm, the spec loop and the semantic answer agree on satisfiable, unsatisfiable and
+   contradictory assumptions *)
+Example ex_c05_assume :
+  in_range 3 [2] /\ Clean ex_c05 (fresh_scratch ex_c05) /\
+  snd (core_dead_with_assumptions (build ex_c05 3) [2] (fresh_scratch ex_c05)) = [1; 2; 3] /\
+  core_dead_spec (MCA ex_c05 3) 3 [2] = [1; 2; 3] /\ core_dead_sem ex_c05 3 [2] = [1; 2; 3] /\
+  snd (core_dead_with_assumptions (build ex_c05 3) [-1] (fresh_scratch ex_c05))
+    = [1; -1; 2; -2; 3; -3] /\
+  core_dead_sem ex_c05 3 [-1] = [1; -1; 2; -2; 3; -3] /\
+  snd (core_dead_with_assumptions (build ex_c05 3) [2; -3] (fresh_scratch ex_c05))
+    = core_dead_sem ex_c05 3 [2; -3].
+Proof.
+  split; [intros l [<-|[]]; vm_compute; split; discriminate|].
+  split; [apply fresh_clean|]. vm_compute. repeat split.
+Qed.
+
+(* instances of the hypothesis H_exec of the glue theorems on this circuit (the universally
+   quantified hypothesis itself is the statement of execute_query_correct) *)
+Example ex_c05_exec_instances :
+  forallb (fun A => snd (execute_query (build ex_c05 3) A (fresh_scratch ex_c05)) =? MCA ex_c05 3 A)
+          [[2]; [2; 1]; [-1]; [2; -3]; [2; -3; 1]; [3; 3]; [1; -1]] = true.
+Proof. vm_compute. reflexivity. Qed.
+
+(* the K7 witness of (B): WFQ holds, no_dead fails, the only model is [-1; 2], core reports [2];
+   the with-assumptions loop (which does not use the syntactic core for candidates) is exact *)
+Example ex_k7 :
+  check_wf k7_circuit 2 = true /\ no_dead k7_circuit = false /\
+  Models k7_circuit 2 = [[-1; 2]] /\ calculate_core k7_circuit 2 = [2] /\
+  snd (core_dead_with_assumptions (build k7_circuit 2) [2] (fresh_scratch k7_circuit)) = [-1; 2].
+Proof. vm_compute. repeat split. Qed.
